@@ -80,6 +80,7 @@ type Env struct {
 	pending       sync.WaitGroup
 	iterOrd       int
 	arrayViews    map[string]*Ptr // whole-value byte views of [N]byte variables, by backing-array ref
+	arrayViewAt   map[string]viewOrigin
 	iteNames      map[string]string
 	sortOf        map[string]string
 	writeLog      map[string][]string
@@ -874,4 +875,12 @@ func conjuncts(g string) []string {
 		out = append(out, conjuncts(a)...)
 	}
 	return out
+}
+
+
+// viewOrigin: a byte slice cut from a [N]byte variable (modelled as an atom) at offset lo.
+type viewOrigin struct {
+	ptr *Ptr
+	lo  string
+	n   int
 }
